@@ -1,6 +1,7 @@
 // vh-headersig binds specs/HeaderSig (property C17) to the real process/headerCheck.HeaderSigVerifier
 // wired with the real BLS multi-signer (crypto/signing/multisig + mcl), the real protobuf marshalizer and
-// blake2b hasher, a stub nodes coordinator returning the consensus group and a stub fallback validator.
+// blake2b hasher, a stub nodes coordinator returning the consensus group and the REAL fallback header validator
+// (fallback.NewFallbackHeaderValidator over a headers pool stub / storage holding the previous headers).
 //
 //	vh-headersig replay <cases.ndjson>             TLC-enumerated headers (n, bitmap, fallback, who really signed) with the
 //	                                               specification's verdict -> real VerifySignature, compare
@@ -31,13 +32,16 @@ import (
 	"github.com/ElrondNetwork/elrond-go/crypto/signing/multisig"
 	"github.com/ElrondNetwork/elrond-go/data"
 	"github.com/ElrondNetwork/elrond-go/data/block"
+	"github.com/ElrondNetwork/elrond-go/dataRetriever"
+	drmock "github.com/ElrondNetwork/elrond-go/dataRetriever/mock"
+	"github.com/ElrondNetwork/elrond-go/fallback"
 	"github.com/ElrondNetwork/elrond-go/hashing"
 	"github.com/ElrondNetwork/elrond-go/hashing/blake2b"
 	"github.com/ElrondNetwork/elrond-go/marshal"
 	"github.com/ElrondNetwork/elrond-go/process"
 	"github.com/ElrondNetwork/elrond-go/process/headerCheck"
 	"github.com/ElrondNetwork/elrond-go/process/mock"
-	"github.com/ElrondNetwork/elrond-go/testscommon"
+	"github.com/ElrondNetwork/elrond-go/testscommon/genericMocks"
 	"verif/harness/internal/vtrace"
 )
 
@@ -59,12 +63,12 @@ type group struct {
 	n        int
 	sks      []crypto.PrivateKey
 	pubKeys  []string
-	verifier map[bool]*headerCheck.HeaderSigVerifier // fallback validator stub answer -> verifier
-	msg      map[string][]byte                       // header kind -> signed message (hash of the header without signatures)
-	shares   map[string][][]byte                     // message key -> share per member
-	aggCache map[string][]byte                       // (message key, signer set) -> aggregated signature
-	aggr     crypto.MultiSigner                      // aggregator
-	signers  map[int]crypto.MultiSigner              // member -> multisigner holding its private key
+	verifier *headerCheck.HeaderSigVerifier
+	msg      map[string][]byte          // header kind -> signed message (hash of the header without signatures)
+	shares   map[string][][]byte        // message key -> share per member
+	aggCache map[string][]byte          // (message key, signer set) -> aggregated signature
+	aggr     crypto.MultiSigner         // aggregator
+	signers  map[int]crypto.MultiSigner // member -> multisigner holding its private key
 }
 
 var groups = map[int]*group{}
@@ -94,27 +98,20 @@ func newGroup(n int) *group {
 			return append([]string(nil), g.pubKeys...), nil
 		},
 	}
-	g.verifier = map[bool]*headerCheck.HeaderSigVerifier{}
-	for _, fallback := range []bool{false, true} {
-		answer := fallback
-		fb := &testscommon.FallBackHeaderValidatorStub{
-			ShouldApplyFallbackValidationCalled: func(_ data.HeaderHandler) bool { return answer },
-		}
-		// the verifier's own multisigner instance: only Create(pubKeys, 0) is called on it
-		vms, err := multisig.NewBLSMultisig(llSigner, g.pubKeys[:1], g.sks[0], keyGen, 0)
-		must(err)
-		v, err := headerCheck.NewHeaderSigVerifier(&headerCheck.ArgsHeaderSigVerifier{
-			Marshalizer:             marsh,
-			Hasher:                  hasher,
-			NodesCoordinator:        nc,
-			MultiSigVerifier:        vms,
-			SingleSigVerifier:       &mclsinglesig.BlsSingleSigner{},
-			KeyGen:                  keyGen,
-			FallbackHeaderValidator: fb,
-		})
-		must(err)
-		g.verifier[answer] = v
-	}
+	// the verifier's own multisigner instance: only Create(pubKeys, 0) is called on it
+	vms, err := multisig.NewBLSMultisig(llSigner, g.pubKeys[:1], g.sks[0], keyGen, 0)
+	must(err)
+	v, err := headerCheck.NewHeaderSigVerifier(&headerCheck.ArgsHeaderSigVerifier{
+		Marshalizer:             marsh,
+		Hasher:                  hasher,
+		NodesCoordinator:        nc,
+		MultiSigVerifier:        vms,
+		SingleSigVerifier:       &mclsinglesig.BlsSingleSigner{},
+		KeyGen:                  keyGen,
+		FallbackHeaderValidator: fallbackValidator,
+	})
+	must(err)
+	g.verifier = v
 	return g
 }
 
@@ -127,20 +124,87 @@ func getGroup(n int) *group {
 	return g
 }
 
-func newHeader(kind string) data.HeaderHandler {
-	if kind == "meta" {
-		return &block.MetaBlock{Nonce: 7, Round: 9, Epoch: 1, PrevRandSeed: []byte("prev rand seed"), RandSeed: []byte("rand seed"),
-			PrevHash: []byte("prev hash"), RootHash: []byte("root"), ChainID: []byte("1"), AccumulatedFees: big.NewInt(0),
-			AccumulatedFeesInEpoch: big.NewInt(0), DeveloperFees: big.NewInt(0), DevFeesInEpoch: big.NewInt(0)}
+// ---- header kinds (what the fallback validator looks at); the table comes from TLA+ (in.hk)
+
+const headerRound = 1000
+
+type hkind struct {
+	meta, soe bool
+	prev      string // "present" (headers pool) | "storage" | "missing" | "wrongtype" (a shard header under that hash)
+	dr        int    // header round - previous header round (signed)
+}
+
+func (k hkind) String() string { return fmt.Sprintf("%v/%v/%s/%d", k.meta, k.soe, k.prev, k.dr) }
+func (k hkind) rec() M         { return M{"meta": k.meta, "soe": k.soe, "prev": k.prev, "dr": k.dr} }
+
+func kindOf(v interface{}) hkind {
+	m := v.(map[string]interface{})
+	return hkind{meta: m["meta"].(bool), soe: m["soe"].(bool), prev: vtrace.Str(m["prev"]), dr: vtrace.Int(m["dr"])}
+}
+
+// previous headers: a pool stub and a storage mock shared by every verifier; filled while the cases are built
+var (
+	prevMu      sync.RWMutex
+	prevPool    = map[string]data.HeaderHandler{}
+	prevStorage = genericMocks.NewChainStorerMock(0)
+	headersPool = &drmock.HeadersCacherStub{GetHeaderByHashCalled: func(hash []byte) (data.HeaderHandler, error) {
+		prevMu.RLock()
+		defer prevMu.RUnlock()
+		if h, ok := prevPool[string(hash)]; ok {
+			return h, nil
+		}
+		return nil, errors.New("header not in pool")
+	}}
+	fallbackValidator process.FallbackHeaderValidator
+)
+
+// prevHashFor registers the previous header of a header kind and returns the PrevHash to put into the header
+func prevHashFor(k hkind) []byte {
+	hash := []byte("prev/" + k.prev + "/" + strconv.Itoa(k.dr))
+	prevMu.Lock()
+	defer prevMu.Unlock()
+	if _, ok := prevPool["seen/"+string(hash)]; ok {
+		return hash
 	}
-	return &block.Header{Nonce: 7, Round: 9, Epoch: 1, ShardID: 1, PrevRandSeed: []byte("prev rand seed"), RandSeed: []byte("rand seed"),
-		PrevHash: []byte("prev hash"), RootHash: []byte("root"), ChainID: []byte("1"), AccumulatedFees: big.NewInt(0),
+	prevPool["seen/"+string(hash)] = nil
+	prevMeta := &block.MetaBlock{Nonce: 6, Round: uint64(headerRound - k.dr), Epoch: 0, PrevRandSeed: []byte("pprs"), RandSeed: []byte("prs"),
+		AccumulatedFees: big.NewInt(0), AccumulatedFeesInEpoch: big.NewInt(0), DeveloperFees: big.NewInt(0), DevFeesInEpoch: big.NewInt(0)}
+	switch k.prev {
+	case "present":
+		prevPool[string(hash)] = prevMeta
+	case "wrongtype":
+		prevPool[string(hash)] = &block.Header{Nonce: 6, Round: uint64(headerRound - k.dr), AccumulatedFees: big.NewInt(0), DeveloperFees: big.NewInt(0)}
+	case "storage":
+		buff, err := marsh.Marshal(prevMeta)
+		must(err)
+		must(prevStorage.Put(dataRetriever.MetaBlockUnit, hash, buff))
+	}
+	return hash
+}
+
+func newHeader(k hkind) data.HeaderHandler {
+	prevHash := prevHashFor(k)
+	if k.meta {
+		h := &block.MetaBlock{Nonce: 7, Round: headerRound, Epoch: 1, PrevRandSeed: []byte("prev rand seed"), RandSeed: []byte("rand seed"),
+			PrevHash: prevHash, RootHash: []byte("root"), ChainID: []byte("1"), AccumulatedFees: big.NewInt(0),
+			AccumulatedFeesInEpoch: big.NewInt(0), DeveloperFees: big.NewInt(0), DevFeesInEpoch: big.NewInt(0)}
+		if k.soe {
+			h.EpochStart.LastFinalizedHeaders = []block.EpochStartShardData{{ShardID: 0, Epoch: 0, Round: 900, Nonce: 5, HeaderHash: []byte("hh")}}
+		}
+		return h
+	}
+	h := &block.Header{Nonce: 7, Round: headerRound, Epoch: 1, ShardID: 1, PrevRandSeed: []byte("prev rand seed"), RandSeed: []byte("rand seed"),
+		PrevHash: prevHash, RootHash: []byte("root"), ChainID: []byte("1"), AccumulatedFees: big.NewInt(0),
 		DeveloperFees: big.NewInt(0)}
+	if k.soe {
+		h.EpochStartMetaHash = []byte("epoch start meta hash")
+	}
+	return h
 }
 
 // message signed by the consensus group for a header: hash of the header without signature, bitmap, leader signature
-func (g *group) message(kind string) []byte {
-	if m, ok := g.msg[kind]; ok {
+func (g *group) message(kind hkind) []byte {
+	if m, ok := g.msg[kind.String()]; ok {
 		return m
 	}
 	h := newHeader(kind).Clone()
@@ -149,7 +213,7 @@ func (g *group) message(kind string) []byte {
 	h.SetLeaderSignature(nil)
 	m, err := core.CalculateHash(marsh, hasher, h)
 	must(err)
-	g.msg[kind] = m
+	g.msg[kind.String()] = m
 	return m
 }
 
@@ -194,9 +258,9 @@ func (g *group) aggregate(key string, msg []byte, set []int) []byte {
 
 // headerSignature builds header.Signature: aggregate of sg over the header hash; if nobody signed the header,
 // the aggregate of fg over a foreign message; if that is empty too, a lone share over the foreign message.
-func (g *group) headerSignature(kind string, sg, fg []int) []byte {
+func (g *group) headerSignature(kind hkind, sg, fg []int) []byte {
 	if len(sg) > 0 {
-		return g.aggregate(kind, g.message(kind), sg)
+		return g.aggregate(kind.String(), g.message(kind), sg)
 	}
 	if len(fg) > 0 {
 		return g.aggregate("foreign", foreignMsg, fg)
@@ -221,7 +285,7 @@ func classify(err error) string {
 }
 
 // build makes the header of a case (sequential: uses the signature caches)
-func (g *group) build(kind string, bm []byte, sg, fg []int) data.HeaderHandler {
+func (g *group) build(kind hkind, bm []byte, sg, fg []int) data.HeaderHandler {
 	h := newHeader(kind)
 	h.SetPubKeysBitmap(bm)
 	h.SetSignature(g.headerSignature(kind, sg, fg))
@@ -230,8 +294,8 @@ func (g *group) build(kind string, bm []byte, sg, fg []int) data.HeaderHandler {
 }
 
 // verify runs the real VerifySignature (safe to call concurrently)
-func (g *group) verify(h data.HeaderHandler, fb bool) (string, error) {
-	err := g.verifier[fb].VerifySignature(h)
+func (g *group) verify(h data.HeaderHandler) (string, error) {
+	err := g.verifier.VerifySignature(h)
 	return classify(err), err
 }
 
@@ -260,35 +324,34 @@ func replay(path string) {
 	distinct := vtrace.NewDistinct()
 	vioCount := map[string]int{}
 	driftCount := 0
-	var cases, accepted, cryptoReached, accPadding, metaRuns int
+	var cases, accepted, cryptoReached, accPadding, metaRuns, fbTrue int
+	kindsSeen := vtrace.NewDistinct()
 	byClass := map[string]int{}
 	samples := 0
 	type job struct {
 		st   vtrace.Step
 		g    *group
-		kind string
+		kind hkind
 		h    data.HeaderHandler
-		fb   bool
+		fb   bool // the real fallback validator's own answer for this header
 		got  string
 		err  error
 	}
 	var jobs []*job
-	for idx, b := range lines {
+	for _, b := range lines {
 		if len(b) == 0 {
 			continue
 		}
 		st := b[len(b)-1]
 		g := getGroup(vtrace.Int(st.In["n"]))
-		kinds := []string{"shard"}
-		if idx%16 == 3 { // the same verifier serves metablocks: run a sample of the cases on a MetaBlock too
-			kinds = append(kinds, "meta")
+		kind := kindOf(st.In["hk"])
+		if kind.meta {
 			metaRuns++
 		}
-		for _, kind := range kinds {
-			jobs = append(jobs, &job{st: st, g: g, kind: kind, fb: st.In["fb"].(bool),
-				h: g.build(kind, toBytes(vtrace.Ints(st.In["bm"])), vtrace.SortedInts(vtrace.Ints(st.In["sg"])),
-					vtrace.SortedInts(vtrace.Ints(st.In["fg"])))})
-		}
+		kindsSeen.Add(kind.String())
+		jobs = append(jobs, &job{st: st, g: g, kind: kind,
+			h: g.build(kind, toBytes(vtrace.Ints(st.In["bm"])), vtrace.SortedInts(vtrace.Ints(st.In["sg"])),
+				vtrace.SortedInts(vtrace.Ints(st.In["fg"])))})
 	}
 	// the real verifier, concurrently (every call builds its own multisigner through Create)
 	var wg sync.WaitGroup
@@ -298,7 +361,8 @@ func replay(path string) {
 		go func() {
 			defer wg.Done()
 			for j := range ch {
-				j.got, j.err = j.g.verify(j.h, j.fb)
+				j.got, j.err = j.g.verify(j.h)
+				j.fb = fallbackValidator.ShouldApplyFallbackValidation(j.h)
 			}
 		}()
 	}
@@ -318,9 +382,19 @@ func replay(path string) {
 		{
 			cases++
 			byClass[got]++
+			if fb {
+				fbTrue++
+			}
+			if fb != st.Out["fallback"].(bool) {
+				driftCount++
+				if driftCount <= 3 {
+					vtrace.Drift(prop, fmt.Sprintf("ShouldApplyFallbackValidation = %v for header kind %s; specification (documented condition): %v",
+						fb, kind, st.Out["fallback"]), nil)
+				}
+			}
 			if got == "ok" || got == "sigInvalid" {
 				cryptoReached++
-				distinct.Add(fmt.Sprintf("%d|%x|%v|%v|%v", n, bm, fb, sg, fg))
+				distinct.Add(fmt.Sprintf("%d|%x|%s|%v|%v", n, bm, kind, sg, fg))
 			}
 			if got == "ok" {
 				accepted++
@@ -328,17 +402,18 @@ func replay(path string) {
 					accPadding++
 				}
 			}
-			detail := M{"n": n, "bitmap_hex": vtrace.Hex(bm), "fallback": fb, "really_signed": sg, "foreign_signed": fg,
-				"header": kind, "real_result": got, "real_error": fmt.Sprint(rerr), "spec": st.Out}
+			detail := M{"n": n, "bitmap_hex": vtrace.Hex(bm), "real_ShouldApplyFallbackValidation": fb, "really_signed": sg, "foreign_signed": fg,
+				"header_kind": kind.rec(), "real_result": got, "real_error": fmt.Sprint(rerr), "spec": st.Out}
 			// the property: accepted only with a quorum of real contributors including the leader
 			if got == "ok" && !quorum {
 				sig := "C17/accepted-without-quorum/" + cls
 				vioCount[sig]++
 				if vioCount[sig] == 1 {
 					vtrace.Violation(prop, sig, fmt.Sprintf(
-						"VerifySignature accepted a %s header although only %d member(s) %v of the %d-member consensus group "+
+						"VerifySignature accepted a header (metablock=%v startOfEpoch=%v previous=%s round-prevRound=%d; documented fallback "+
+							"condition %v, real ShouldApplyFallbackValidation %v) although only %d member(s) %v of the %d-member consensus group "+
 							"contributed to the aggregated signature (required %d incl. the leader): bitmap %x has %d member bit(s) and %d "+
-							"padding bit(s)", kind, len(sg), sg, n, vtrace.Int(st.Out["thr"]), bm, vtrace.Int(st.Out["members"]),
+							"padding bit(s)", kind.meta, kind.soe, kind.prev, kind.dr, st.Out["fallback"], fb, len(sg), sg, n, vtrace.Int(st.Out["thr"]), bm, vtrace.Int(st.Out["members"]),
 						vtrace.Int(st.Out["padding"])), detail)
 				}
 			}
@@ -346,13 +421,13 @@ func replay(path string) {
 			if got != vtrace.Str(st.Out["resIntended"]) && got != vtrace.Str(st.Out["resAsCoded"]) {
 				driftCount++
 				if driftCount <= 3 {
-					vtrace.Drift(prop, fmt.Sprintf("VerifySignature returned class %q (%v); specification predicts %q (intended) / %q (as coded) for n=%d bitmap=%x fallback=%v signed=%v",
-						got, rerr, st.Out["resIntended"], st.Out["resAsCoded"], n, bm, fb, sg), detail)
+					vtrace.Drift(prop, fmt.Sprintf("VerifySignature returned class %q (%v); specification predicts %q (intended) / %q (as coded) for n=%d bitmap=%x kind=%s signed=%v",
+						got, rerr, st.Out["resIntended"], st.Out["resAsCoded"], n, bm, kind, sg), detail)
 				}
 			}
 			if samples < 3 && got == "ok" && len(bm) > 1 {
 				samples++
-				vtrace.Sample(prop, M{"n": n, "bitmap_hex": vtrace.Hex(bm), "fallback": fb, "signed": sg, "real": got,
+				vtrace.Sample(prop, M{"n": n, "bitmap_hex": vtrace.Hex(bm), "header_kind": kind.rec(), "signed": sg, "real": got,
 					"spec_quorum": quorum, "spec_class": st.Out["resIntended"]})
 			}
 		}
@@ -364,6 +439,8 @@ func replay(path string) {
 	vtrace.Stat("behaviours", len(lines))
 	vtrace.Stat("steps", cases)
 	vtrace.Stat("meta_runs", metaRuns)
+	vtrace.Stat("header_kinds", kindsSeen.Len())
+	vtrace.Stat("real_fallback_true", fbTrue)
 	vtrace.Stat("distinct", distinct.Len())
 	vtrace.Stat("accepted", accepted)
 	vtrace.Stat("accepted_with_padding_bits", accPadding)
@@ -409,7 +486,14 @@ func record(seed int64, count int, out string) {
 				bm[L-1] |= ^(byte(1<<uint(n%8)) - 1)
 			}
 		}
-		fb := r.Intn(4) == 0
+		// header kind: mostly plain shard headers / metablocks, a third of the time a start-of-epoch metablock around the
+		// fallback condition (round differences incl. negative ones, previous header missing / only in storage)
+		kind := hkind{meta: r.Intn(2) == 0, soe: r.Intn(3) == 0, prev: "present", dr: 1 + r.Intn(3)}
+		if r.Intn(3) == 0 {
+			drs := []int{-700, -50, -1, 0, 1, 48, 49, 50, 51, 52, 100, 999}
+			kind = hkind{meta: r.Intn(6) != 0, soe: r.Intn(6) != 0, prev: []string{"present", "present", "present", "storage", "missing", "wrongtype"}[r.Intn(6)],
+				dr: drs[r.Intn(len(drs))]}
+		}
 		// who really signed: the driver picks any set of members; most of the time exactly those whose bit is set
 		var sg, fg []int
 		for i := 0; i < n && i < 8*L; i++ {
@@ -432,12 +516,10 @@ func record(seed int64, count int, out string) {
 			}
 		}
 		sort.Ints(sg)
-		kind := "shard"
-		if r.Intn(4) == 0 {
-			kind = "meta"
-		}
 		g := getGroup(n)
-		got, _ := g.verify(g.build(kind, bm, sg, fg), fb)
+		h := g.build(kind, bm, sg, fg)
+		got, _ := g.verify(h)
+		fb := fallbackValidator.ShouldApplyFallbackValidation(h)
 		ibm := make([]int, len(bm))
 		for i := range bm {
 			ibm[i] = int(bm[i])
@@ -448,7 +530,7 @@ func record(seed int64, count int, out string) {
 		if fg == nil {
 			fg = []int{}
 		}
-		w.Emit("Verify", M{"n": n, "bm": ibm, "fb": fb, "sg": sg, "fg": fg}, M{"res": got}, M{"kind": kind})
+		w.Emit("Verify", M{"n": n, "bm": ibm, "hk": kind.rec(), "sg": sg, "fg": fg}, M{"res": got, "fallback": fb}, M{})
 	}
 	must(w.Close())
 	vtrace.Stat("events", w.N)
@@ -461,6 +543,13 @@ func main() {
 	must(err)
 	llSigner = &mclmultisig.BlsMultiSigner{Hasher: h}
 	hasher = blake2b.NewBlake2b()
+	fv, err := fallback.NewFallbackHeaderValidator(headersPool, marsh, prevStorage)
+	must(err)
+	fallbackValidator = fv
+	if len(os.Args) >= 2 && os.Args[1] == "config" {
+		vtrace.Stat("MaxRoundsWithoutCommittedStartInEpochBlock", core.MaxRoundsWithoutCommittedStartInEpochBlock)
+		return
+	}
 	if len(os.Args) < 3 {
 		fmt.Fprintln(os.Stderr, "usage: vh-headersig replay <file> | record <seed> <cases> <out>")
 		os.Exit(2)
